@@ -6,7 +6,7 @@
     circular arcs.  The theorems below are stated for one piece starting at an arbitrary point, which
     is how the chain evaluates every piece (C06_chain). *)
 From Coq Require Import Reals Lra List.
-From WB Require Import Num Base RNum Props World Kernels Bezier SlabSpec SlabSpecProofs SlabModel SlabRefine.
+From WB Require Import Num Base RNum Props World Kernels Bezier SlabSpec SlabSpecProofs SlabModel SlabRefine SlabChain.
 Import ListNotations.
 Local Open Scope R_scope.
 
@@ -141,3 +141,53 @@ Theorem C06_membership : forall (F : Type) (NF : Num F) (lf : @line_feature F) (
        else slab_member (pd_distance pd) (pd_along pd) tr th tot (q_depth q) (lf_min lf) (lf_max lf) true))%bool.
 Proof. intros F NF lf q. exact (covers_is_membership lf q). Qed.
 Print Assumptions C06_membership.
+
+(** the pieces put together: for the Cartesian depth method the surface traced by the implementation's segment loop
+    (end point after every piece, accumulated length, angle correction staying zero) is the end of the specification's
+    chain over the interpolated pieces - whatever the check point - as long as every piece is at least 1e-14 long and is
+    either straight or an arc with dips at least 1e-8 apart, top dip in (0, pi) and at least 1e-8 from the vertical *)
+Theorem C06_loop_traces_spec_surface : forall (sp : special) (cur nxt : list (R * R * R)) sr frac isec cp st iseg u v,
+  ss_add st = 0 ->
+  Forall piece_ok (loop_pieces frac cur nxt) ->
+  let st' := @segment_loop R (Rnum sp) DMNone sr frac isec cp st iseg cur nxt in
+  ss_add st' = 0 /\
+  ss_end st' = frame sr (@spec_chain_end R (Rnum sp) (loop_pieces frac cur nxt) (fst (ss_end st)) (sr - snd (ss_end st)) u v) /\
+  ss_total st' = @spec_chain_done R (Rnum sp) (loop_pieces frac cur nxt) (ss_total st).
+Proof. intros sp cur nxt sr frac isec cp st iseg u v H1 H2. exact (loop_end_refines_spec sp cur nxt sr frac isec cp st iseg u v H1 H2). Qed.
+Print Assumptions C06_loop_traces_spec_surface.
+
+(** the premises are met: a straight piece followed by an arc *)
+Example C06_pieces_ok_somewhere :
+  Forall piece_ok (loop_pieces (1 / 2) [(1, 1, 100); (1 / 4, 2, 100)] [(1, 1, 100); (1 / 4, 2, 100)]).
+Proof.
+  pose proof (pow10_neg_small 14) as [A14 B14]. pose proof (pow10_neg_small 8) as [A8 B8].
+  assert (P3 : 3 < PI) by (pose proof PI2_3_2 as Q; unfold PI2 in Q; lra). pose proof PI_4 as P4.
+  cbn [loop_pieces interp_piece tl].
+  apply Forall_cons; [|apply Forall_cons; [|apply Forall_nil]]; unfold piece_ok; cbn [pc_len pc_top pc_bot].
+  - split; [lra|]. left. lra.
+  - split; [lra|]. right.
+    replace (1 / 4 + 1 / 2 * (1 / 4 - 1 / 4) - (2 + 1 / 2 * (2 - 2))) with (- (7 / 4)) by lra.
+    replace (1 / 4 + 1 / 2 * (1 / 4 - 1 / 4)) with (1 / 4) by lra.
+    rewrite (Rabs_left (- (7 / 4))) by lra. rewrite (Rabs_left (1 / 4 - PI / 2)) by lra.
+    split; [lra|]. split; [split; lra|]. lra.
+Qed.
+
+(** one step of the loop, for every number interpretation *)
+Theorem C06_loop_step : forall (F : Type) (NF : Num F) sr frac isec cp2d st iseg t0 b0 l0 t1 b1 l1,
+  let top := fadd (fadd (fadd t0 (fmul frac (fsub t1 t0))) (ss_add st)) f0 in
+  let bottom := fadd (fadd b0 (fmul frac (fsub b1 b0))) (ss_add st) in
+  let len := fadd l0 (fmul frac (fsub l1 l0)) in
+  let st' := segment_step DMNone sr frac isec cp2d st iseg (t0, b0, l0) (t1, b1, l1) in
+  ss_add st' = ss_add st /\
+  ss_end st' = (if flt len e14 then ss_end st else piece_end sr (ss_end st) len top bottom cp2d) /\
+  ss_total st' = (if flt len e14 then ss_total st else fadd (ss_total st) len).
+Proof. intros F NF sr frac isec cp2d st iseg t0 b0 l0 t1 b1 l1. exact (segment_step_end_cartesian sr frac isec cp2d st iseg t0 b0 l0 t1 b1 l1). Qed.
+Print Assumptions C06_loop_step.
+
+(** evaluating a chain in two parts: the second part starts where the first ends *)
+Theorem C06_chain_split : forall (F : Type) (NF : Num F) (ps qs : list (@piece F)) sx sy done k u v best,
+  planar_chain (ps ++ qs) sx sy done k u v best =
+  planar_chain qs (fst (spec_chain_end ps sx sy u v)) (snd (spec_chain_end ps sx sy u v))
+               (spec_chain_done ps done) (length ps + k) u v (planar_chain ps sx sy done k u v best).
+Proof. intros F NF ps qs sx sy done k u v best. exact (planar_chain_app ps qs sx sy done k u v best). Qed.
+Print Assumptions C06_chain_split.
